@@ -11,12 +11,15 @@
 //                                               or an Array_/Vector_ of k-scalar elements (A) -> O unf 0 | O unf 1 [n] values
 //   I xenc <keepQuotes> <condense> <str>        TinyXML EncodeString as seen in a written document -> O xenc <str>
 //   I xdec <0 text keep|1 text condense|2 attribute> <raw>   raw character data parsed by Xml::Document -> O xdec 0|1 <str>
-//   I xtree <condense> <tree tokens>            document built through the API, written, re-read -> O xtree <tree tokens>
+//   I xtree <condense> <tree tokens>            document built through the API, written to a string, re-read -> O xtree <tree tokens>
+//   I xtreeF <condense> <tree tokens>           same through writeToFile/readFromFile (LoadFile normalises CR / CRLF to LF)
+//   unf kinds: H Mat of complex (rows go through the Hermitian transpose: the text holds the conjugates), F fixed aggregate, A Array_/Vector_, S SymMat (full matrix + symmetry test), R RowVector_ (reads into a copy)
 // P lines: acceptance == whole-string rule (finding F2 keys *.trailing_junk), round-trip equalities.
 #include "SimTKcommon.h"
 #include "hcommon.h"
 #include <complex>
 #include <cctype>
+#include <unistd.h>
 using namespace SimTK;
 
 static std::string hx(const std::string& s) {
@@ -157,8 +160,32 @@ template <class T> static void flat(const std::complex<T>& v, std::vector<T>& o)
 template <int M, class E, int S, class T> static void flat(const Vec<M, E, S>& v, std::vector<T>& o) { for (int i = 0; i < M; ++i) flat(v[i], o); }
 template <int M, int N, class E, int CS, int RS, class T> static void flat(const Mat<M, N, E, CS, RS>& v, std::vector<T>& o) {
     for (int i = 0; i < M; ++i) for (int j = 0; j < N; ++j) flat(v(i, j), o); }
+template <int M, class E, int RS, class T> static void flat(const SymMat<M, E, RS>& v, std::vector<T>& o) {
+    for (int i = 0; i < M; ++i) for (int j = 0; j < M; ++j) flat(i >= j ? v(i, j) : v(j, i), o); }
+template <int N, class E, int S, class T> static void flat(const Row<N, E, S>& v, std::vector<T>& o) { for (int i = 0; i < N; ++i) flat(v[i], o); }
+template <class E, class T> static void flat(const RowVector_<E>& v, std::vector<T>& o) { for (int i = 0; i < v.size(); ++i) flat(v[i], o); }
+template <class E, class T> static void flat(const Matrix_<E>& v, std::vector<T>& o) { for (int i = 0; i < v.nrow(); ++i) for (int j = 0; j < v.ncol(); ++j) flat(v(i, j), o); }
 template <class E, class T> static void flat(const Array_<E>& v, std::vector<T>& o) { for (int i = 0; i < (int)v.size(); ++i) flat(v[i], o); }
 template <class E, class T> static void flat(const Vector_<E>& v, std::vector<T>& o) { for (int i = 0; i < v.size(); ++i) flat(v[i], o); }
+
+// the object that is read into starts out different from the value written (fixed shapes: sentinel contents; dynamic
+// containers: empty), so a reader that stores nothing cannot pass
+static void scramble(double& x) { x = 123.25; }
+static void scramble(float& x) { x = 123.25f; }
+static void scramble(int& x) { x = 77; }
+static void scramble(bool& x) { x = !x; }
+template <class T> static void scramble(std::complex<T>& z) { z = std::complex<T>(T(123.25), T(-7)); }
+template <int M, class E, int S> static void scramble(Vec<M, E, S>& v) { for (int i = 0; i < M; ++i) scramble(v[i]); }
+template <int N, class E, int S> static void scramble(Row<N, E, S>& v) { for (int i = 0; i < N; ++i) scramble(v[i]); }
+template <int M, int N, class E, int CS, int RS> static void scramble(Mat<M, N, E, CS, RS>& v) { for (int i = 0; i < M; ++i) for (int j = 0; j < N; ++j) scramble(v(i, j)); }
+template <int M, class E, int RS> static void scramble(SymMat<M, E, RS>& v) { for (int i = 0; i < M; ++i) for (int j = 0; j <= i; ++j) scramble(v(i, j)); }
+template <class E> static void scramble(Array_<E>& v) { v.clear(); }
+template <class E> static void scramble(Vector_<E>& v) { v.resize(0); }
+template <class E> static void scramble(RowVector_<E>& v) { v.resize(0); }
+template <class E> static void scramble(Matrix_<E>& v) { for (int i = 0; i < v.nrow(); ++i) for (int j = 0; j < v.ncol(); ++j) scramble(v(i, j)); }
+// Matrix_ has no variable-size reader (readUnformatted(Matrix_&) is documented as not implemented): fillUnformatted
+template <class A> static bool readAgg(std::istream& in, A& w) { return readUnformatted(in, w); }
+template <class E> static bool readAgg(std::istream& in, Matrix_<E>& w) { return fillUnformatted(in, w); }
 
 template <class T> static bool eqScal(const T& a, const T& b) { return a == b; }
 template <> bool eqScal<double>(const double& a, const double& b) { return sameBits(a, b); }
@@ -167,26 +194,30 @@ template <> bool eqScal<float>(const float& a, const float& b) { return sameBits
 // read `text` back into AGG (shape given by `proto`), print the record
 template <class T, class AGG> static bool readBack(const std::string& text, const char* kind, int k, AGG& w, const char* tag) {
     std::istringstream in(text);
-    bool ok = readUnformatted(in, w);
+    bool ok = readAgg(in, w);
     vh::I("unf").s(kind).s(tyCode<T>()).i(k).s(hx(text)).emit();
     if (ok) {
         std::vector<T> f; flat(w, f);
         vh::Line o = vh::O("unf"); o.i(1);
-        if (kind[0] == 'A') o.i((long long)f.size() / (k ? k : 1));
-        for (auto& x : f) o.s(scalTok<T>(x));
+        if (kind[0] == 'A' || kind[0] == 'R') o.i((long long)f.size() / (k ? k : 1));
+        for (size_t q = 0; q < f.size(); ++q) { T x = f[q]; o.s(scalTok<T>(x)); }
         o.emit();
     } else vh::O("unf").i(0).emit();
     vh::D(std::string("unf.") + tag + (ok ? ".ok" : ".fail"));
     return ok;
 }
-template <class T, class AGG> static void unfRT(const AGG& v, const char* kind, int k, const char* tag, vh::Rng& g) {
+template <class T, class AGG> static void unfRT(const AGG& v, const char* kind, int k, const char* tag, vh::Rng& g, bool mutate = true) {
     std::ostringstream o; writeUnformatted(o, v);
-    AGG w(v);                       // same shape (fixed aggregates ignore the contents; arrays are cleared by the reader)
+    AGG w(v); scramble(w);
     bool ok = readBack<T>(o.str(), kind, k, w, tag);
     std::vector<T> a, b; flat(v, a); if (ok) flat(w, b);
     bool same = ok && a.size() == b.size();
     for (size_t i = 0; same && i < a.size(); ++i) same = eqScal<T>(a[i], b[i]);
     vh::P("roundtrip", std::string("Serialize.unformatted.") + tag + ".roundtrip", same ? 0 : 1, 0);
+    if (!same) {   // correspondence-only twin (the O-line comparison must survive a failing predicate)
+        AGG w3(v); scramble(w3); readBack<T>(o.str(), kind, k, w3, (std::string(tag) + ".twin_without_predicates").c_str());
+    }
+    if (!mutate) return;
     // mutated texts (correspondence only): white-space variants, trailing blank, junk, missing token, punctuation
     std::string t = o.str(), m;
     switch (g.below(7)) {
@@ -198,7 +229,7 @@ template <class T, class AGG> static void unfRT(const AGG& v, const char* kind, 
         case 5: m = t; for (char& c : m) if (c == ' ') c = ','; break;
         default: m = "[" + t + "]"; break;
     }
-    AGG w2(v);
+    AGG w2(v); scramble(w2);
     readBack<T>(m, kind, k, w2, (std::string(tag) + ".mutated").c_str());
 }
 
@@ -286,7 +317,14 @@ static bool treeHas(const XNode& n, const std::string& pat) {
     for (auto& k : n.kids) if (treeHas(k, pat)) return true;
     return false;
 }
-static void xtree(bool cond, const XNode& root, bool compact) {
+static bool commentHas(const XNode& n, const std::string& pat) {
+    if (n.kind == 1) return n.text.find(pat) != std::string::npos;
+    for (auto& k : n.kids) if (commentHas(k, pat)) return true;
+    return false;
+}
+static long fileCounter = 0;
+// via: 0 = writeToString/readFromString, 1 = writeToFile/readFromFile (scratch file under /tmp/agent-C32)
+static void xtree(bool cond, const XNode& root, bool compact, int via = 0) {
     CondGuard cg(cond);
     std::vector<std::string> in, out; xser(root, in);
     bool ok = true;
@@ -296,15 +334,32 @@ static void xtree(bool cond, const XNode& root, bool compact) {
         for (auto& a : root.attrs) r.setAttributeValue(a.first, a.second);
         if (root.kids.empty()) r.setValue(root.text);
         for (auto& k : root.kids) { if (k.kind == 1) r.appendNode(Xml::Comment(k.text)); else r.appendNode(xbuild(k)); }
-        String text; doc.writeToString(text, compact);
-        Xml::Document d2; d2.readFromString(text);
+        Xml::Document d2;
+        if (via == 0) { String text; doc.writeToString(text, compact); d2.readFromString(text); }
+        else {
+            int rc = std::system("mkdir -p /tmp/agent-C32"); (void)rc;
+            std::string path = "/tmp/agent-C32/x" + std::to_string((long)getpid()) + "_" + std::to_string(fileCounter++ % 4) + ".xml";
+            doc.writeToFile(path); d2.readFromFile(path); std::remove(path.c_str());
+        }
         xread(d2.getRootElement(), out);
     } catch (const std::exception& e) { ok = false; out.clear(); out.push_back(std::string("EXC")); std::fprintf(stderr, "xtree exception: %s\n", e.what()); }
-    vh::Line i = vh::I("xtree"); i.i(cond); for (auto& t : in) i.s(t); i.emit();
-    vh::Line o = vh::O("xtree"); for (auto& t : out) o.s(t); o.emit();
+    const char* fn = via ? "xtreeF" : "xtree";
+    vh::Line i = vh::I(fn); i.i(cond); for (auto& t : in) i.s(t); i.emit();
+    vh::Line o = vh::O(fn); for (auto& t : out) o.s(t); o.emit();
     bool hexref = treeHas(root, "&#x");
-    vh::D(std::string("xtree.") + (cond ? "condense" : "keep") + (compact ? ".compact" : ".indented") + (hexref ? ".hexref" : ""));
-    vh::P("roundtrip", hexref ? "Xml.roundtrip.text_with_hex_char_reference" : "Xml.roundtrip.exact", (ok && in == out) ? 0 : 1, 0);
+    // raw CR reaches the file in comments (never encoded) and, when white space is kept, in text and attribute values
+    bool cr = via == 1 && ((!cond && treeHas(root, "\r")) || commentHas(root, "\r"));
+    vh::D(std::string(fn) + "." + (cond ? "condense" : "keep") + (via ? ".file" : compact ? ".compact" : ".indented") + (hexref ? ".hexref" : "") + (cr ? ".cr" : ""));
+    bool same = ok && in == out;
+    const char* key = hexref ? "Xml.roundtrip.text_with_hex_char_reference"
+                    : cr ? "Xml.file_roundtrip.carriage_return_becomes_newline"
+                    : via ? "Xml.file_roundtrip.exact" : "Xml.roundtrip.exact";
+    vh::P("roundtrip", key, same ? 0 : 1, 0);
+    if (!same) {   // correspondence-only twin: the model predicts the exact outcome of these records too
+        vh::Line i2 = vh::I(fn); i2.i(cond); for (auto& t : in) i2.s(t); i2.emit();
+        vh::Line o2 = vh::O(fn); for (auto& t : out) o2.s(t); o2.emit();
+        vh::D(std::string(fn) + ".twin_without_predicates");
+    }
 }
 
 // ------------------------------------------------------------------------------------------------ generators
@@ -403,6 +458,7 @@ static XNode randomTree(vh::Rng& g, int depth, bool cond, bool hexref) {
     XNode n; n.kind = 0; n.tag = safeName(g);
     int na = g.below(4);
     for (int i = 0; i < na; ++i) { std::string nm = safeName(g) + std::to_string(i); std::string v = randomText(g, 12, false, true);
+        switch (g.below(8)) { case 0: v += "\""; break; case 1: v += "'"; break; case 2: v = "'" + v + "\""; break; case 3: v += "\"q\" 'p'"; break; default: break; }
         if (hexref && g.below(3) == 0) v += "&#x41;"; else if (!hexref) { size_t p; while ((p = v.find("&#x")) != std::string::npos) v.erase(p, 1); }
         n.attrs.push_back({nm, v}); }
     int nk = depth > 0 ? g.below(4) : 0;
@@ -452,6 +508,7 @@ static void replay() {
         else if (fn == "xenc" && t.size() == 3) xenc(t[0] == "1", t[1] == "1", unhx(t[2]));
         else if (fn == "xdec" && t.size() == 2) xdec(std::atoi(t[0].c_str()), unhx(t[1]));
         else if (fn == "xtree" && t.size() >= 4) { size_t i = 1; XNode r = parseTree(t, i); xtree(t[0] == "1", r, true); }
+        else if (fn == "xtreeF" && t.size() >= 4) { size_t i = 1; XNode r = parseTree(t, i); xtree(t[0] == "1", r, true, 1); }
         else if (fn == "unf" && t.size() == 4) {
             std::string text = unhx(t[3]); int kk = std::atoi(t[1 + 1].c_str());
             if (t[0] == "F" && t[1] == "d") { if (kk == 1) { double w; readBack<double>(text, "F", 1, w, "replay"); } else if (kk == 2) { std::complex<double> w; readBack<double>(text, "F", 2, w, "replay"); }
@@ -486,6 +543,13 @@ int main(int argc, char** argv) {
         XNode r; r.kind = 0; r.tag = "root"; XNode c; c.kind = 0; c.tag = "t"; c.text = "A&#x42;C"; r.kids.push_back(c);
         xtree(false, r, true); xtree(true, r, false);
         XNode r2; r2.kind = 0; r2.tag = "root"; r2.attrs.push_back({"a", "v=&#x41;"}); r2.text = "plain"; xtree(false, r2, true);
+        // attribute values with a double quote, a single quote, both; through strings and files, both white-space modes
+        XNode r3; r3.kind = 0; r3.tag = "root"; r3.attrs.push_back({"dq", "say \"hi\""}); r3.attrs.push_back({"sq", "it's"});
+        r3.attrs.push_back({"both", "\"a\" and 'b'"}); r3.attrs.push_back({"both2", "'\""}); r3.text = "t \"q\" 'p'";
+        for (int c2 = 0; c2 < 2; ++c2) { xtree(c2, r3, true); xtree(c2, r3, false); xtree(c2, r3, false, 1); }
+        // carriage returns through a file (finding) and through a string
+        XNode r4; r4.kind = 0; r4.tag = "root"; r4.attrs.push_back({"a", "x\ry"}); XNode c4; c4.kind = 0; c4.tag = "t"; c4.text = "a\rb\r\nc"; r4.kids.push_back(c4);
+        xtree(false, r4, true); xtree(false, r4, false, 1); xtree(true, r4, false, 1);
     }
     // ---- random records
     for (long k = 0; k < args.n; ++k) {
@@ -504,7 +568,7 @@ int main(int argc, char** argv) {
         else if (stream == 11) { rtI(g.coin() ? (long long)(int32_t)g.next() : (long long)g.next()); if (g.coin()) { std::string c1, c2; rtC({randomDouble(g, c1), randomDouble(g, c2)}); } }
         else if (stream <= 15) {
             std::string c;
-            switch (g.below(12)) {
+            switch (g.below(22)) {
                 case 0: unfRT<double>(randomDouble(g, c), "F", 1, "double", g); break;
                 case 1: unfRT<float>(randomFloat(g, c), "F", 1, "float", g); break;
                 case 2: unfRT<double>(std::complex<double>(randomDouble(g, c), randomDouble(g, c)), "F", 2, "complex", g); break;
@@ -516,12 +580,23 @@ int main(int argc, char** argv) {
                 case 8: { Array_<Vec3> a; int n = g.below(4); for (int i = 0; i < n; ++i) a.push_back(Vec3(randomDouble(g, c), randomDouble(g, c), randomDouble(g, c))); unfRT<double>(a, "A", 3, "Array_Vec3", g); break; }
                 case 9: { Array_<int> a; int n = g.below(6); for (int i = 0; i < n; ++i) a.push_back((int)(int32_t)g.next() >> g.below(31)); unfRT<int>(a, "A", 1, "Array_int", g); break; }
                 case 10: { Vec<2, float> v(randomFloat(g, c), randomFloat(g, c)); unfRT<float>(v, "F", 2, "Vec2f", g); break; }
+                case 11: { RowVector v(1 + g.below(5)); for (int i = 0; i < v.size(); ++i) v[i] = randomDouble(g, c); unfRT<double>(v, "R", 1, "RowVector", g, false); break; }
+                case 12: { SymMat33 m; bool fin = true; for (int i = 0; i < 3; ++i) for (int j = 0; j <= i; ++j) { double x = g.below(4) ? g.signedMag(1e-3, 1e3) : randomDouble(g, c); m(i, j) = x; if (std::isinf(x)) fin = false; }
+                           unfRT<double>(m, "S", 9, fin ? "SymMat33" : "SymMat33.infinite", g, false); break; }
+                case 13: { Matrix m(1 + g.below(3), 1 + g.below(4)); for (int i = 0; i < m.nrow(); ++i) for (int j = 0; j < m.ncol(); ++j) m(i, j) = randomDouble(g, c); unfRT<double>(m, "F", m.nrow() * m.ncol(), "Matrix", g); break; }
+                case 14: { Row<3> r(randomDouble(g, c), randomDouble(g, c), randomDouble(g, c)); unfRT<double>(r, "F", 3, "Row3", g); break; }
+                case 15: { Vector_<Vec3> v(g.below(4)); for (int i = 0; i < v.size(); ++i) v[i] = Vec3(randomDouble(g, c), randomDouble(g, c), randomDouble(g, c)); unfRT<double>(v, "A", 3, "Vector_Vec3", g); break; }
+                case 16: { Array_<float> a; int n = g.below(6); for (int i = 0; i < n; ++i) a.push_back(randomFloat(g, c)); unfRT<float>(a, "A", 1, "Array_float", g); break; }
+                case 17: unfRT<int>((int)(int32_t)g.next() >> g.below(31), "F", 1, "int", g); break;
+                case 18: unfRT<bool>(g.coin(), "F", 1, "bool", g); break;
+                case 19: { Array_<bool> a; int n = g.below(6); for (int i = 0; i < n; ++i) a.push_back(g.coin()); unfRT<bool>(a, "A", 1, "Array_bool", g); break; }
+                case 20: { Mat<2, 2, std::complex<double> > m; for (int i = 0; i < 2; ++i) for (int j = 0; j < 2; ++j) m(i, j) = std::complex<double>(randomDouble(g, c), randomDouble(g, c)); unfRT<double>(m, "H", 8, "Mat22complex", g, false); break; }
                 default: { Vec<2, std::complex<double> > v(std::complex<double>(randomDouble(g, c), randomDouble(g, c)), std::complex<double>(randomDouble(g, c), randomDouble(g, c))); unfRT<double>(v, "F", 4, "Vec2complex", g); break; }
             }
         }
         else if (stream <= 17) xenc(g.coin(), g.coin(), randomText(g, 20, false, true));
         else if (stream == 18) { int m = g.below(3); xdec(m, randomText(g, 16, false, false)); }
-        else { bool cond = g.coin(); bool hexref = g.below(8) == 0; xtree(cond, randomTree(g, 3, cond, hexref), g.coin()); }
+        else { bool cond = g.coin(); bool hexref = g.below(8) == 0; xtree(cond, randomTree(g, 3, cond, hexref), g.coin(), g.below(3) == 0 ? 1 : 0); }
     }
     return 0;
 }
